@@ -1,4 +1,5 @@
 import DdsModel.Eval
+import DdsProofs.SigInj
 /-!
 # C09 — dds.load always sees the latest kept value and invalidates its readers
 
@@ -45,5 +46,20 @@ theorem load_uses_committed_key (W : World) (rq : List (String × Sg)) (rec : Ru
 theorem load_must_resolve (refs : Refs) (p : String) (ps : List String) (h : aget refs p = none) :
     lookupRefs refs (p :: ps) = .error .assertion := by
   simp [lookupRefs, h]
+
+end Dds.C09
+
+namespace Dds.C09
+open Dds
+
+/-- `reader_sig_tracks_producer` (the direction that makes readers sound): two analyses of functions that load
+paths and end up with the same signature resolved every loaded path to the same producer signature — a
+reader's signature cannot stay the same when the signature its path resolves to changes. -/
+theorem reader_sig_determines_loaded (b b' : Option Sg) (a a' : ArgCtx) (deps deps' : List (String × Sg))
+    (subs subs' : List Sg) (ed ed' : List (String × String)) (ev ev' : List (String × Sg)) (pa pa' : Pairs)
+    (ha : argPairs a = .ok pa) (ha' : argPairs a' = .ok pa')
+    (h : buildReturnSig b a deps subs ed ev = buildReturnSig b' a' deps' subs' ed' ev') :
+    ∀ p s, (p, s) ∈ deps ↔ (p, s) ∈ deps' :=
+  (buildReturnSig_inj b b' a a' deps deps' subs subs' ed ed' ev ev' pa pa' ha ha' h).2.2.1
 
 end Dds.C09
